@@ -139,7 +139,11 @@ def r3(ctx, F):
         tag = 'with-mtime' if with_opt else 'no-mtime'
         verbs = [shell.simple_verb(cw) for _, cw in sc]
         conns = [c for c, _ in sc]
-        shape = len(sc) >= 2 and verbs[0] == 'cat' and 'mv' in verbs and all(c == '&&' for c in conns[1:]) and not probs
+        mv_pos = verbs.index('mv') if 'mv' in verbs else -1
+        # every step up to and including `mv` is &&-chained; a gate may be a pipeline (`find .. | grep -q .`)
+        chain_ok = mv_pos > 0 and conns[mv_pos] == '&&' and all(c in ('&&', '|') for c in conns[1:mv_pos]) and conns[1] == '&&' and \
+            all(c == '&&' for c in conns[mv_pos + 1:])
+        shape = len(sc) >= 2 and verbs[0] == 'cat' and chain_ok and not probs
         stage = dst = None
         if shape:
             cat = sc[0][1]
@@ -165,12 +169,21 @@ def r3(ctx, F):
             gate = False
             if shape:
                 mv_i = verbs.index('mv')
-                for v in verbs[1:mv_i]:
-                    if v in ('test', '[', '[[', 'cmp', 'sha256sum', 'b3sum', 'wc', 'stat'):
+                nw = lambda w: ''.join((t.text or '') if t.kind != 'hole' else '{%s}' % holes[t.hole][2] for t in w)
+                stage_word = nw(sc[mv_i][1][2])
+                for (conn, cw), v in list(zip(sc, verbs))[1:mv_i]:
+                    texts = [shell.word_text(w) for w in cw]
+                    on_stage = stage_word in [nw(w) for w in cw]
+                    if v in ('test', '[', '[[', 'cmp', 'sha256sum', 'b3sum', 'stat') and on_stage:
                         gate = True
-                text = shtemplate.render(items)
-                if '$(' in text and ('wc -c' in text or 'stat ' in text):
-                    gate = True
+                    if v == 'find' and on_stage and '-size' in texts:
+                        # find STAGE -size <N>c | grep -q .   (exact byte size, integer hole)
+                        i = texts.index('-size')
+                        w = cw[i + 1] if i + 1 < len(cw) else []
+                        if len(w) == 2 and w[0].kind == 'hole' and holes[w[0].hole][1] == 'int' and w[1].kind == 'lit' and w[1].text == 'c':
+                            nxt = sc[verbs.index('find') + 1] if verbs.index('find') + 1 < len(sc) else None
+                            if nxt and nxt[0] == '|' and shell.simple_verb(nxt[1]) == 'grep':
+                                gate = True
             ctx.check(gate, 'C09.R3', 'push-template:completeness-gate', 'size/hash check of the staged file before mv',
                       'the remote `mv` is conditioned only on `cat` exiting 0: a sender killed mid-stream closes the pipe, cat sees EOF and exits 0, and the '
                       'truncated staging file is published', where)
